@@ -16,6 +16,11 @@ Sub-checks
                LinearEstimator / convert_var_to_qoperation: the estimator is probed, its exact MSE computed from the
                (proved exact) covariance and compared with calc_mse_linear_analytical
   mixed        testers with unequal outcome counts: total covariance vs an independent numpy reference
+  history      no hidden state: ONE tomography object is asked for sequences of true objects (A, neighbours at distance 1e-6..1e-9
+               in both orders, exact copies, a far object) interleaved with two sample-size lists, both modes, QOperation /
+               variable-array arguments and two call orders; every value must equal a fresh tomography object's value, the
+               model's value at that object, and consecutive differences must equal the exactly computed model differences
+               (helpers has the same neighbour-pair test for the module-level functions)
 """
 import itertools, warnings, math
 from fractions import Fraction
@@ -88,7 +93,7 @@ def chk_helpers(ctx, case):
             "fisher_total": "matrix_util.calc_fisher_matrix_total", "se": "matrix_util.calc_se",
             "mse_prob_dists": "matrix_util.calc_mse_prob_dists", "general_norm": "data_analysis.calc_mse_general_norm",
             "da_cov": "data_analysis.calc_covariance_matrix_of_prob_dists", "direct_sum_bad": "matrix_util.calc_direct_sum",
-            "mse_qops": "data_analysis.calc_mse_qoperations"}[kind]
+            "mse_qops": "data_analysis.calc_mse_qoperations", "near": "matrix_util"}[kind]
 
     def bad(sig, what):
         ctx.violation("helpers", site, sig, what, case)
@@ -238,6 +243,39 @@ def chk_helpers(ctx, case):
         ctx.count("helpers", key=("mpd", repr(case["xs_list"]), repr(case["ys_list"])), label="mse_prob_dists", nontrivial=len(xs_list) >= 3)
         if not flow.close(float(mse), mean_m, 1e-12) or not flow.close(float(std) ** 2, var_m, 1e-10):
             bad("value", "calc_mse_prob_dists=(%s,%s) model mean %s variance %s" % (mse, std, mean_m, var_m))
+    elif kind == "near":
+        # module-level memoisation / rounding of the arguments: evaluate a helper at p, at p + delta*d (sum preserved), at p again;
+        # the implementation's differences must equal the exactly computed differences of the model values
+        p0 = np.array([float(fr(x)) for x in case["p"]]); d = np.array(case["dir"], dtype=float); d = d - d.mean()
+        G = [np.array([float(fr(x)) for x in row]) for row in case["G"]]
+        n = case["n"]; fn = case["fn"]
+        pts = [p0, p0 + case["delta"] * d, p0.copy(), p0 - case["delta"] * d]
+
+        def both(q):
+            if fn == "cov_mat":
+                return np.asarray(mu.calc_covariance_mat(q, n), dtype=float).ravel(), m.call("c19.cov_mat", [len(q)], [n] + list(q))
+            if fn == "da_cov":
+                return np.asarray(da.calc_covariance_matrix_of_prob_dist(q, n), dtype=float).ravel(), m.call("c19.cov_mat", [len(q)], [n] + list(q))
+            if fn == "cov_total":
+                return (np.asarray(mu.calc_covariance_mat_total([(n, q), (n + 1, p0)]), dtype=float).ravel(),
+                        m.call("c19.cov_total", [2, len(q), len(p0)], [n] + list(q) + [n + 1] + list(p0)))
+            return (np.asarray(mu.calc_fisher_matrix(q, G), dtype=float).ravel(),
+                    m.call("c19.mu_fisher", [len(q), len(G), len(G[0])], [EPS8] + list(q) + [x for g in G for x in g]))
+
+        vals = [both(q) for q in pts]
+        fsite = {"cov_mat": "matrix_util.calc_covariance_mat", "da_cov": "data_analysis.calc_covariance_matrix_of_prob_dist",
+                 "cov_total": "matrix_util.calc_covariance_mat_total", "fisher": "matrix_util.calc_fisher_matrix"}[fn]
+        for k in range(1, len(vals)):
+            (gi, gm), (hi, hm) = vals[k - 1], vals[k]
+            dm = np.array([float(x - y) for x, y in zip(hm, gm)]); di = hi - gi
+            scale = 1.0 + float(np.max(np.abs(hi))); rounding = 1e-13 * scale; big = float(np.max(np.abs(dm)))
+            resolved = big > 1e3 * rounding
+            ctx.count("helpers", key=("near", fn, repr(case["p"]), case["delta"], k), label="near-%s-%s" % (fn, "resolved" if resolved else "below-rounding"), nontrivial=resolved)
+            if not close_arr(hi, fl(hm), TOL):
+                ctx.violation("helpers", fsite, "value", "differs from the model at the perturbed argument", case)
+            elif resolved and float(np.max(np.abs(di - dm))) > 1e-3 * big + rounding:
+                ctx.violation("helpers", fsite, "sensitivity", "arguments at distance %g: implementation changes by %.6g, exact difference of the model values %.6g (mismatch %.3g)" % (
+                    case["delta"], float(np.max(np.abs(di))), big, float(np.max(np.abs(di - dm)))), case)
     elif kind == "mse_qops":
         # the sample MSE the analytical qoperation-mode value is compared with in quara's simulation checks:
         # mean / std(ddof=1) over repetitions of |stacked(estimate) - stacked(truth)|^2
@@ -345,6 +383,11 @@ def gen_helpers(ctx):
         cases.append({"kind": "mse_prob_dists",
                       "xs_list": [[[rq(rng, 0, 9) for _ in range(ln)] for _ in range(K)] for _ in range(R)],
                       "ys_list": [[[rq(rng, 0, 9) for _ in range(ln)] for _ in range(K)] for _ in range(R)]})
+    for fn in ("cov_mat", "da_cov", "cov_total", "fisher"):
+        for dl in ([1e-6, 1e-8] if ctx.quick else [1e-6, 1e-7, 1e-8, 1e-9]):
+            mm_ = rng.randint(2, 4); nvv = rng.randint(1, 3)
+            cases.append({"kind": "near", "fn": fn, "p": [frs(x) for x in rand_dist(rng, mm_)], "dir": [rng.randint(-4, 4) for _ in range(mm_ - 1)] + [5],
+                          "G": [[rq(rng, -5, 5) for _ in range(nvv)] for _ in range(mm_)], "n": rng.choice([1, 3, 10, 100]), "delta": dl})
     for _ in range(max(4, k // 3)):
         cases.append({"kind": "mse_qops", "obj": rng.choice(["state", "povm"]), "R": rng.randint(2, 6), "same_truth": rng.random() < 0.6, "seed": rng.randrange(1 << 30)})
     for _ in range(max(4, k // 2)):
@@ -824,8 +867,194 @@ def sub_mixed(ctx):
     ctx.run_cases("mixed", chk_mixed, cases)
 
 
-SUBS = [("helpers", sub_helpers), ("expect", sub_expect), ("tomo", sub_tomo), ("object_err", sub_object_err), ("mixed", sub_mixed)]
-FNS = {"helpers": chk_helpers, "expect": chk_expect, "tomo": chk_tomo, "object_err": chk_object_err, "mixed": chk_mixed}
+# ====================================================================== no hidden state: sequences of true objects on ONE tomography object
+def _eval_all(t, X, ns, N, reverse, use_var):
+    """every analytical entry point of the tomography object t at the true object X; the call order is varied by `reverse`"""
+    from quara.settings import Settings
+    J = t.num_schedules
+    out = {}
+    w = [n_ / N for n_ in ns]
+    arg = np.asarray(X.to_var(), dtype=np.float64) if use_var else X
+    steps = [
+        ("calc_prob_dists", lambda: np.concatenate([np.asarray(r, dtype=float).ravel() for r in t.calc_prob_dists(X)])),
+        ("calc_prob_dist", lambda: np.concatenate([np.asarray(t.calc_prob_dist(X, j), dtype=float).ravel() for j in range(J)])),
+        ("calc_covariance_mat_single", lambda: np.concatenate([np.asarray(t.calc_covariance_mat_single(X, j, ns[j]), dtype=float).ravel() for j in range(J)])),
+        ("calc_covariance_mat_total", lambda: np.asarray(t.calc_covariance_mat_total(X, ns), dtype=float)),
+        ("calc_covariance_linear_mat_total", lambda: np.asarray(t.calc_covariance_linear_mat_total(X, ns), dtype=float)),
+        ("calc_mse_linear_analytical[var]", lambda: np.array([float(t.calc_mse_linear_analytical(X, ns, mode="var"))])),
+        ("calc_mse_linear_analytical[qoperation]", lambda: np.array([float(t.calc_mse_linear_analytical(X, ns, mode="qoperation"))])),
+        ("calc_mse_empi_dists_analytical", lambda: np.array([float(t.calc_mse_empi_dists_analytical(X, ns))])),
+        ("calc_fisher_matrix", lambda: np.concatenate([np.asarray(t.calc_fisher_matrix(j, arg), dtype=float).ravel() for j in sorted(set([0, J - 1]))])),
+        ("calc_fisher_matrix_total", lambda: np.asarray(t.calc_fisher_matrix_total(arg, w), dtype=float)),
+        ("calc_cramer_rao_bound", lambda: np.array([float(t.calc_cramer_rao_bound(arg, N, ns))])),
+    ]
+    if reverse:
+        steps = steps[::-1]
+    # per-schedule entry points additionally as the FIRST and the LAST calls of the step with one fixed schedule j0, so that across
+    # consecutive steps the same method is called with the same j and neighbouring objects back to back (a one-entry memo would hit)
+    j0 = J // 2
+    single = lambda tag: [
+        ("calc_fisher_matrix@j0[%s]" % tag, lambda: np.asarray(t.calc_fisher_matrix(j0, arg), dtype=float).ravel()),
+        ("calc_prob_dist@j0[%s]" % tag, lambda: np.asarray(t.calc_prob_dist(X, j0), dtype=float).ravel()),
+        ("calc_covariance_mat_single@j0[%s]" % tag, lambda: np.asarray(t.calc_covariance_mat_single(X, j0, ns[j0]), dtype=float).ravel()),
+    ]
+    steps = single("first") + steps + single("last")
+    with warnings.catch_warnings():
+        warnings.simplefilter("ignore")
+        for name, f in steps:
+            out[name] = f()
+    return out
+
+
+def chk_history(ctx, case):
+    """ONE tomography object is asked for the analytical quantities of a sequence of true objects: A, objects at distance
+    1e-6 .. 1e-9 from A (both orders), exact copies of A, a far object, interleaved with two sample-size lists, both modes,
+    QOperation / variable-array arguments and two call orders.  Every value must be (1) what a FRESH tomography object returns
+    for that object (no dependence on the call history), (2) the model's value at THAT object, and (3) for consecutive steps
+    with the same sample sizes the implementation's difference must equal the exactly computed difference of the two model
+    values (the yardstick that resolves pairs far closer than the 1e-9 comparison tolerance)."""
+    from quara.utils import matrix_util as mu
+    from quara.settings import Settings
+    m = ctx.get_model()
+    kind = case["type"]; eq = case["eq"]; mo = case.get("mo", 0)
+    mk = lambda fresh: S.build_tomo(kind, case["sys"], eq, case.get("tst_states"), case.get("tst_povms"), mo, fresh=fresh)
+    t = mk(True)                      # the ONE object of this history
+    cls = type(t).__name__
+    d2 = S.c_sys_of(case["sys"]).dim ** 2
+    A_obj = S.build_truth(kind, case["sys"], eq, mo, case["truth"])
+    C_obj = S.build_truth(kind, case["sys"], eq, mo, case["far"])
+    A = t.calc_matA(); b = t.calc_vecB()
+    nr, nv = A.shape; J = t.num_schedules
+    eps = Settings.get_atol()
+    L = mu.calc_left_inv(A)
+    label = "%s-%s-%s" % (kind, case["sys"], "eq" if eq else "free")
+    v0 = np.asarray(A_obj.to_var() if eq else A_obj.to_stacked_vector(), dtype=np.float64)
+    if float(np.min(A @ v0 + b)) < 1e-4:
+        ctx.count("history", key=repr(case), label=label + "-near-zero-probability-skipped", nontrivial=False)
+        return
+    objs = {}
+
+    def obj_of(key):
+        if key not in objs:
+            if key == "A":
+                objs[key] = A_obj
+            elif key == "C":
+                objs[key] = C_obj
+            elif key == "A2":
+                objs[key] = S.perturbed(kind, A_obj, eq, case["dir_seed"], 0.0)         # exact copy, another instance
+            else:
+                objs[key] = S.perturbed(kind, A_obj, eq, case["dir_seed"], float(key.split(":")[1]))
+        return objs[key]
+
+    def model_at(X, ns, N):
+        v = np.asarray(X.to_var() if eq else X.to_stacked_vector(), dtype=np.float64)
+        zs, qs = header(case, t, d2, A, b, v)
+        out = m.call("c19.tomo_mse", zs, qs + [eps] + ns + rflat(L))
+        res = {
+            "calc_prob_dists": m.call("c19.prob_dists", zs, qs + [eps]),
+            "calc_covariance_mat_total": m.call("c19.tomo_cov_total", header(case, t, d2, A, b, v, [len(ns)])[0], qs + [eps] + ns),
+            "calc_covariance_linear_mat_total": out[7:],
+            "calc_mse_linear_analytical[var]": [out[2]],
+            "calc_mse_linear_analytical[qoperation]": [out[3]],
+            "calc_mse_empi_dists_analytical": [out[5]],
+        }
+        res["calc_prob_dist"] = res["calc_prob_dists"]
+        st, Ft = m.try_call("c19.tomo_fisher_total", zs, qs + [EPS8] + [n_ / N for n_ in ns])
+        if st == "ok":
+            res["calc_fisher_matrix_total"] = Ft
+        st, Fj = m.try_call("c19.tomo_fisher", header(case, t, d2, A, b, v, [J // 2])[0], qs + [EPS8])
+        if st == "ok":
+            res["calc_fisher_matrix@j0[first]"] = Fj; res["calc_fisher_matrix@j0[last]"] = Fj
+        j0 = J // 2; offs = [0]
+        for x in sizes_of(t):
+            offs.append(offs[-1] + x)
+        res["calc_prob_dist@j0[first]"] = res["calc_prob_dist@j0[last]"] = res["calc_prob_dists"][offs[j0]:offs[j0 + 1]]
+        return res
+
+    prev = None
+    for k, (okey, nsi, use_var) in enumerate(case["steps"]):
+        X = obj_of(okey); ns = case["ns_lists"][nsi]; N = case["N"]
+        use_var = bool(use_var) and eq == X.on_para_eq_constraint
+        step_case = dict(case, failing_step=k)
+        got = _eval_all(t, X, ns, N, reverse=(k % 2 == 1), use_var=use_var)
+        fresh = _eval_all(mk(True), X, ns, N, reverse=False, use_var=False)
+        mod = model_at(X, ns, N)
+        ctx.count("history", key=(repr(case), k), label="%s-step-%s" % (label, okey.split(":")[0]), nontrivial=True)
+        for name, val in got.items():
+            site = cls + "." + name.split("[")[0].split("@")[0]
+            scale = 1.0 + float(np.max(np.abs(fresh[name]))) if fresh[name].size else 1.0
+            # (1) history independence: same value as a tomography object that has never been called
+            if val.shape != fresh[name].shape or float(np.max(np.abs(val - fresh[name]))) > 1e-12 * scale:
+                ctx.violation("history", site, "history-dependent",
+                              "step %d (%s, sample sizes #%d) after %s: %s on the re-used tomography object differs from a fresh tomography object's value by %.3g (scale %.3g) - the analytical value is not a function of (true object, sample sizes) alone" % (
+                                  k, okey, nsi, [s_[0] for s_ in case["steps"][:k]], name, float(np.max(np.abs(val - fresh[name]))) if val.shape == fresh[name].shape else float("nan"), scale), step_case)
+                continue
+            if name not in mod:
+                continue
+            mf = np.array(fl(mod[name]))
+            # (2) the model's value at THIS object
+            if not close_arr(val, mf, TOL):
+                ctx.violation("history", site, "value", "step %d (%s): %s differs from the model at this object" % (k, okey, name), step_case)
+                continue
+            # (3) yardstick: difference to the previous step vs the exact difference of the model values
+            if prev is not None and prev["nsi"] == nsi and name in prev["mod"] and len(prev["mod"][name]) == len(mod[name]):
+                dm = np.array([float(x - y) for x, y in zip(mod[name], prev["mod"][name])])
+                di = (val - prev["got"][name]).ravel()
+                rounding = 1e-13 * scale
+                big = float(np.max(np.abs(dm))) if dm.size else 0.0
+                resolved = big > 1e3 * rounding
+                ctx.count("history", key=(repr(case), k, name), label="pair-%s" % ("resolved" if resolved else "below-rounding"), nontrivial=resolved)
+                if resolved and float(np.max(np.abs(di - dm))) > 1e-3 * big + rounding:
+                    ctx.violation("history", site, "sensitivity",
+                                  "steps %d -> %d (%s -> %s, same sample sizes): %s changes by %.6g (max entry) in the implementation, the exact difference of the model values is %.6g; mismatch %.3g" % (
+                                      k - 1, k, prev["okey"], okey, name, float(np.max(np.abs(di))), big, float(np.max(np.abs(di - dm)))), step_case)
+        prev = {"nsi": nsi, "mod": mod, "got": got, "okey": okey}
+
+
+HISTORY_SETUPS = [
+    ("qst", "qubit", 0, None, ["typical"]),
+    ("qst", "qubit", 0, None, ["mixed", 15, [3, 2]]),
+    ("povmt", "qubit", 3, ["typical"], None),
+    ("qpt", "qubit", 0, ["typical"], ["typical"]),
+    ("qmpt", "qubit", 2, ["typical"], ["typical"]),
+]
+HISTORY_MORE = [
+    ("qst", "qutrit", 0, None, ["typical"]),
+    ("povmt", "qutrit", 2, ["typical"], None),
+    ("qpt", "qubit", 0, ["random", 31, 4], ["mixed", 35, [2, 3]]),
+]
+
+
+def sub_history(ctx):
+    rng = ctx.rng
+    deltas = [1e-6, 1e-8] if ctx.quick else [1e-6, 1e-7, 1e-8, 1e-9]
+    cases = []
+    for (kind, sysn, mo, ts, tp) in (HISTORY_SETUPS if ctx.quick else HISTORY_SETUPS + HISTORY_MORE):
+        for eq in (True, False):
+            if ctx.quick and kind == "qmpt" and not eq:
+                continue
+            for _ in range(ctx.n(1, 2)):
+                t = S.build_tomo(kind, sysn, eq, ts, tp, mo)
+                J = t.num_schedules
+                ns1 = rand_ns(rng, J); ns2 = [n_ + rng.choice([1, 3, 50]) for n_ in ns1]
+                steps = [["A", 0, 0]]
+                for i, dl in enumerate(deltas):
+                    sgn = "" if i % 2 == 0 else "-"
+                    nsi = i % 2
+                    if steps[-1][1] != nsi:
+                        steps.append(["A2", nsi, 1])           # same object, other sample sizes
+                    steps.append(["B:%s%g" % (sgn, dl), nsi, i % 2])      # A -> close neighbour
+                    steps.append(["A2" if i % 2 == 0 else "A", nsi, 1 - i % 2])   # close neighbour -> (copy of) A
+                steps += [["C", steps[-1][1], 0], ["C", 1 - steps[-1][1], 1], ["B:%g" % deltas[-1], 1 - steps[-1][1], 0], ["A", 1 - steps[-1][1], 1]]
+                cases.append({"type": kind, "sys": sysn, "eq": eq, "mo": mo, "tst_states": ts, "tst_povms": tp,
+                              "truth": ["random", rng.randrange(1 << 30)], "far": ["random", rng.randrange(1 << 30)],
+                              "dir_seed": rng.randrange(1 << 30), "ns_lists": [ns1, ns2], "N": rng.choice([ns1[0], 10]), "steps": steps})
+    ctx.sample("history", cases[0])
+    ctx.run_cases("history", chk_history, cases)
+
+
+SUBS = [("helpers", sub_helpers), ("expect", sub_expect), ("tomo", sub_tomo), ("object_err", sub_object_err), ("mixed", sub_mixed), ("history", sub_history)]
+FNS = {"helpers": chk_helpers, "expect": chk_expect, "tomo": chk_tomo, "object_err": chk_object_err, "mixed": chk_mixed, "history": chk_history}
 
 
 def run(ctx):
@@ -835,6 +1064,8 @@ def run(ctx):
                 "and tester POVM sets with unequal outcome counts ([3,2], [2,4,3], ...), "
                 "seeded random physical truths (mixed and rank-deficient states, generic POVMs, CPTP maps from random isometries, instruments) plus named pure truths "
                 "(zero probabilities -> truncation / eps-replacement branches), equal / unequal / tiny sample-size lists, both parametrisations, both modes; "
+                "history: per setup a seeded truth A, neighbours A + delta*d (delta 1e-6, 1e-8; thorough also 1e-7, 1e-9; d seeded, inside the equality constraint), exact copies and a far truth, "
+                "evaluated on one re-used tomography object; a neighbour pair is non-trivial when the exact model difference exceeds 1e3 x rounding (1e-13 x scale); "
                 "non-trivial = outside the threshold bands (|p - eps| relative 1e-3) and, where a count applies, at least 2 schedules/blocks; distinct = distinct case record")
     flow.standard_run(ctx, SUBS)
     ctx.assumptions = [
